@@ -228,4 +228,62 @@ def check(ctx: Ctx) -> list[RuleResult]:
     if n_sites < 8:
         raise AnalysisError("topology container initialisations not found")
     out.append(r4)
+    # ---- R5 ---------------------------------------------------------------------------
+    # A zone's probe set is built from its class (`_ROLE_ACTUATORS`, R1): when a zone is promoted (`self.__class__ = ...`) the
+    # table must be rebuilt on every path, else the zone never asks for the actuators of the class it now has.
+    r5 = RuleResult("R5", "promotion rebuilds the probe table", "every `self.__class__ = ...` in the zone classes is followed on all paths by self._setup_discovery_cmds()", min_instances=1)
+    for f in sorted(repo.funcs.values(), key=lambda x: x.qualname):
+        if f.module.name != "ramses_rf.system.zones":
+            continue
+        promos = [n for n in own_nodes(f.node) if isinstance(n, ast.Assign) and any(norm(t) == "self.__class__" for t in n.targets)]
+        if not promos:
+            continue
+        cfgp = ctx.plain_cfg(f)
+        for pnode in promos:
+            r5.instances += 1
+            r5.nontrivial += 1
+            start = cfgp.nodes_of(pnode)
+            if not start:
+                raise AnalysisError(f"{f.short}: promotion statement not in the CFG")
+            leaks = cfgp.exits_reachable_without(start[0].id, lambda x: x.ast is not None and x.kind == "stmt" and any(isinstance(c, ast.Call) and norm(c.func) == "self._setup_discovery_cmds" for c in ast.walk(x.ast)), skip_start_exc=False)
+            normal = [lk for lk in leaks if lk[0].kind == "exit"]
+            if normal:
+                r5.fail(f"{f.short}:promotion-without-rebuild", f.loc(pnode), f"after `{norm(pnode)[:60]}` the function can return without self._setup_discovery_cmds(): the probe table built for the old class is kept, so the 000C request for the new class's actuator role is never sent")
+            else:
+                r5.ok({"promotion": f"{f.short}: {norm(pnode)[:50]}", "followed_by": "self._setup_discovery_cmds() on every normal path"})
+    if r5.instances == 0:
+        raise AnalysisError("no zone promotion site (`self.__class__ = ...`) found in ramses_rf.system.zones")
+    out.append(r5)
+
+    # ---- R6 ---------------------------------------------------------------------------
+    # Gateway.start() switches discovery off while it loads the schema / restores the cache, then decides whether to start the
+    # pollers: that decision must read the *restored* flag, i.e. the restoring assignment dominates the test.
+    r6 = RuleResult("R6", "discovery is started from the restored flag", "in Gateway.start the assignment that restores config.disable_discovery dominates the test guarding initiate_discovery()", min_instances=1)
+    gst = repo.func("ramses_rf.gateway.Gateway.start")
+    cfgs = ctx.plain_cfg(gst)
+    FLAG = "self.config.disable_discovery"
+    calls = [x for x in cfgs.nodes if x.ast is not None and x.kind == "stmt" and any(isinstance(c, ast.Call) and norm(c.func) == "initiate_discovery" for c in ast.walk(x.ast))]
+    tests = [t for t in cfgs.nodes if t.kind == "test" and FLAG in norm(t.ast) and any(cfgs.edge_dominates(t, "true", c) for c in calls)]
+    writes = []
+    for x in cfgs.nodes:
+        if x.ast is None or x.kind != "stmt" or not isinstance(x.ast, ast.Assign):
+            continue
+        for t in x.ast.targets:
+            els = list(zip(t.elts, x.ast.value.elts)) if isinstance(t, ast.Tuple) and isinstance(x.ast.value, ast.Tuple) and len(t.elts) == len(x.ast.value.elts) else [(t, x.ast.value)]
+            for tt, vv in els:
+                if norm(tt) == FLAG:
+                    writes.append((x, vv))
+    temp = [(x, v) for x, v in writes if isinstance(v, ast.Constant) and v.value is True]
+    restore = [(x, v) for x, v in writes if not isinstance(v, ast.Constant)]
+    if not calls or not tests or not temp or not restore:
+        raise AnalysisError("Gateway.start: initiate_discovery call / flag test / temporary switch-off / restore not found")
+    domS = cfgs.dominators()
+    for t in tests:
+        r6.instances += 1
+        r6.nontrivial += 1
+        if any(x.id in domS[t.id] for x, _v in restore):
+            r6.ok({"test": norm(t.ast)[:70], "dominated_by": norm(restore[0][0].ast)[:60]})
+        else:
+            r6.fail(f"{gst.short}:discovery-test-before-restore", gst.loc(t.ast), "the test that guards initiate_discovery() reads config.disable_discovery before it has been restored from its temporary True: the pollers of everything created during start-up (schema, cached packets, early traffic) are never started")
+    out.append(r6)
     return out
